@@ -32,6 +32,12 @@ pub struct ChanSpec {
     pub inband_by: Option<Side>,
     pub label: String,
     pub protocol: String,
+    /// Negotiated channels only: Some((a_ms, b_ms)) = the channel object is created on each side that
+    /// many ms AFTER the association is up there (late `create_data_channel`), not before the start.
+    /// Such a channel is never announced Open by the association start; senders use it once both sides
+    /// have created it, without waiting for Open.
+    #[serde(default)]
+    pub late_ms: Option<(u16, u16)>,
 }
 
 #[derive(Clone, Debug, Serialize, Deserialize)]
@@ -219,6 +225,7 @@ struct Shared {
     inband: Mutex<Vec<InbandSeen>>,
     /// (side, chan id) -> open flag
     open: Mutex<HashMap<(Side, u16), watch::Sender<bool>>>,
+    created: Mutex<HashMap<(Side, u16), watch::Sender<bool>>>,
     /// channels received in-band, kept alive
     remote_dcs: Mutex<Vec<Arc<DataChannel>>>,
 }
@@ -232,6 +239,17 @@ impl Shared {
         g.entry((side, id))
             .or_insert_with(|| watch::channel(false).0)
             .subscribe()
+    }
+    fn created_rx(&self, side: Side, id: u16) -> watch::Receiver<bool> {
+        let mut g = self.created.lock();
+        g.entry((side, id))
+            .or_insert_with(|| watch::channel(false).0)
+            .subscribe()
+    }
+    fn set_created(&self, side: Side, id: u16) {
+        let mut g = self.created.lock();
+        let tx = g.entry((side, id)).or_insert_with(|| watch::channel(false).0);
+        tx.send_replace(true);
     }
     fn set_open(&self, side: Side, id: u16) {
         let mut g = self.open.lock();
@@ -295,6 +313,7 @@ pub async fn run_case_with(w: &Workload, n: &NetSpec, lim: &Limits, extra: &RigE
         issued: Mutex::new(Vec::new()),
         inband: Mutex::new(Vec::new()),
         open: Mutex::new(HashMap::new()),
+        created: Mutex::new(HashMap::new()),
         remote_dcs: Mutex::new(Vec::new()),
     });
     let mut tasks: Vec<tokio::task::JoinHandle<()>> = Vec::new();
@@ -303,6 +322,9 @@ pub async fn run_case_with(w: &Workload, n: &NetSpec, lim: &Limits, extra: &RigE
     let mut local: [Vec<Arc<DataChannel>>; 2] = [Vec::new(), Vec::new()];
     for c in &w.chans {
         for (i, side) in [Side::A, Side::B].into_iter().enumerate() {
+            if c.late_ms.is_some() && c.inband_by.is_none() {
+                continue;
+            }
             if c.inband_by.is_none() || c.inband_by == Some(side) {
                 local[i].push(Arc::new(DataChannel::new(c.id, chan_config(c))));
             }
@@ -363,6 +385,45 @@ pub async fn run_case_with(w: &Workload, n: &NetSpec, lim: &Limits, extra: &RigE
     let dtls_connected = matches!(sa, rustrtc::transports::dtls::DtlsState::Connected(..))
         && matches!(sb, rustrtc::transports::dtls::DtlsState::Connected(..));
 
+    // negotiated channels created late, on a live association
+    for (i, side) in [Side::A, Side::B].into_iter().enumerate() {
+        let late: Vec<ChanSpec> = w.chans.iter().filter(|c| c.late_ms.is_some() && c.inband_by.is_none()).cloned().collect();
+        if late.is_empty() {
+            continue;
+        }
+        // "association up" as an application sees it: some channel that existed from the start is Open here
+        let early: Option<u16> = w.chans.iter().find(|c| c.late_ms.is_none() && (c.inband_by.is_none() || c.inband_by == Some(side))).map(|c| c.id);
+        let registry = pair.end(side).channels.clone();
+        let sh2 = sh.clone();
+        tasks.push(tokio::spawn(async move {
+            match early {
+                Some(id) => {
+                    let mut rx = sh2.open_rx(side, id);
+                    while !*rx.borrow_and_update() {
+                        if rx.changed().await.is_err() {
+                            return;
+                        }
+                    }
+                }
+                None => tokio::time::sleep(Duration::from_millis(400)).await,
+            }
+            let mut inner: Vec<tokio::task::JoinHandle<()>> = Vec::new();
+            let mut order: Vec<&ChanSpec> = late.iter().collect();
+            order.sort_by_key(|c| if i == 0 { c.late_ms.unwrap().0 } else { c.late_ms.unwrap().1 });
+            let mut waited = 0u16;
+            for c in order {
+                let at = if i == 0 { c.late_ms.unwrap().0 } else { c.late_ms.unwrap().1 };
+                tokio::time::sleep(Duration::from_millis((at - waited) as u64)).await;
+                waited = at;
+                let dc = Arc::new(DataChannel::new(c.id, chan_config(c)));
+                registry.lock().push(Arc::downgrade(&dc));
+                sh2.remote_dcs.lock().push(dc.clone()); // keeps it alive
+                spawn_receiver(sh2.clone(), side, dc, &mut inner);
+                sh2.set_created(side, c.id);
+            }
+        }));
+    }
+
     // sender tasks
     let mut groups: HashMap<(Side, u8), Vec<usize>> = HashMap::new();
     for (i, s) in w.sends.iter().enumerate() {
@@ -381,11 +442,23 @@ pub async fn run_case_with(w: &Workload, n: &NetSpec, lim: &Limits, extra: &RigE
             for op in ops {
                 let s = &w2.sends[op];
                 let id = w2.chans[s.chan].id;
-                let mut rx = sh2.open_rx(side, id);
-                // a well-behaved application sends only on an Open channel
-                while !*rx.borrow_and_update() {
-                    if rx.changed().await.is_err() {
-                        return;
+                if w2.chans[s.chan].late_ms.is_some() && w2.chans[s.chan].inband_by.is_none() {
+                    // late negotiated channel: usable once both applications have created it
+                    for who in [Side::A, Side::B] {
+                        let mut rx = sh2.created_rx(who, id);
+                        while !*rx.borrow_and_update() {
+                            if rx.changed().await.is_err() {
+                                return;
+                            }
+                        }
+                    }
+                } else {
+                    let mut rx = sh2.open_rx(side, id);
+                    // a well-behaved application sends only on an Open channel
+                    while !*rx.borrow_and_update() {
+                        if rx.changed().await.is_err() {
+                            return;
+                        }
                     }
                 }
                 if s.gap_ms > 0 {
